@@ -1,6 +1,9 @@
 // C20 harness: etl::pair / etl::tuple / etl::invoke / call wrappers against std:: on the same case
 // lines.  Protocol: see lean/Tetl/C20/Driver.lean.  Part 1: instrumentation, element kinds, pair, tuple.
 #define TETL_ENABLE_CUSTOM_ASSERT_HANDLER 1
+#ifndef C20_HAS_IFN_MEMPTR
+    #define C20_HAS_IFN_MEMPTR 1 // set by checks/props/c20.py from a compile probe of the tree under test
+#endif
 #include "proto.hpp"
 
 #include <etl/functional.hpp>
@@ -905,6 +908,44 @@ static std::string fref_line(Line const& l, bool ifn2)
     g_log.clear();
     g_copies    = 0;
     long long r = 0;
+    if (ifn2 && l.has("f")) {
+        // an owning wrapper around a pointer to member: called through INVOKE with the object as first argument
+        auto const& ff = l.str("f");
+        Sc s;
+        if (ff == "memfn") {
+            if (x.size() != 1) return "bad-op";
+            using Sg = long long(Sc&, int);
+            if constexpr (Etl) {
+#if C20_HAS_IFN_MEMPTR
+                etl::inplace_function<Sg, 32> w{static_cast<pmf_l>(&Sc::q)};
+                auto w2 = w;
+                r       = w2(s, static_cast<int>(x[0]));
+#else
+                return "nc"; // does not compile: the invoke thunk calls (*p)(args...) although the constructor accepts INVOKE-able types
+#endif
+            } else {
+                std::function<Sg> w{static_cast<pmf_l>(&Sc::q)};
+                auto w2 = w;
+                r       = w2(s, static_cast<int>(x[0]));
+            }
+        } else if (ff == "memdata") {
+            if (!x.empty()) return "bad-op";
+            s.dm     = static_cast<int>(l.i("v"));
+            using Sg = int(Sc&);
+            if constexpr (Etl) {
+#if C20_HAS_IFN_MEMPTR
+                etl::inplace_function<Sg, 32> w{&Sc::dm};
+                r = w(s);
+#else
+                return "nc";
+#endif
+            } else {
+                std::function<Sg> w{&Sc::dm};
+                r = w(s);
+            }
+        } else return "bad-op";
+        return "r=" + std::to_string(r) + " log=" + fmt_log() + " cp=" + std::to_string(g_copies);
+    }
     if (f == "fob") {
         auto const& xc = l.list("xc");
         if (x.size() != 3 || xc.size() != 1 || c > 1) return "bad-op";
